@@ -235,6 +235,26 @@ func opMarshal(d *dfu.Dialect) Op {
 	}}
 }
 
+// opMarshalQualified: a realm of three schemas whose table names collide with each other and with the
+// schema names the marshaller uses as qualifier labels: users in s1 and in s2 (both blocks get a
+// qualifier), a table named s1 in s3 (its label equals a qualifier in use), a table named s3 in s2
+// (equals the qualifier the previous step brought into use).
+func opMarshalQualified(d *dfu.Dialect) Op {
+	return Op{"marshal_hcl_qualified/" + d.Name, func() (string, error) {
+		newT := func(n string) *schema.Table {
+			return schema.NewTable(n).AddColumns(&schema.Column{Name: "id", Type: &schema.ColumnType{Type: d.Int()}})
+		}
+		s1 := schema.New("s1").AddTables(newT("users"), newT("plain"))
+		s2 := schema.New("s2").AddTables(newT("users"), newT("s3"))
+		s3 := schema.New("s3").AddTables(newT("s1"), newT("s2"))
+		b, err := marshal(d, schema.NewRealm(s1, s2, s3))
+		if err != nil {
+			return "marshal error: " + err.Error(), nil
+		}
+		return string(b), nil
+	}}
+}
+
 func opEvalMarshal(d *dfu.Dialect) Op {
 	return Op{"eval_marshal/" + d.Name, func() (string, error) {
 		b, err := marshal(d, dfu.Base(d))
@@ -555,7 +575,7 @@ func opDiffInherit(style string) Op {
 func Ops(thorough bool) []Op {
 	var ops []Op
 	for _, d := range dfu.Dialects {
-		ops = append(ops, opPlans(d, thorough), opDiffOrder(d), opMarshal(d), opEvalMarshal(d))
+		ops = append(ops, opPlans(d, thorough), opDiffOrder(d), opMarshal(d), opEvalMarshal(d), opMarshalQualified(d))
 	}
 	ops = append(ops, opFormat(), opChecksum(), opValidateErr(), opScopeErr(), opEvalMultiFile(), opReplayDev(0), opReplayDev(1), opDiffInherit("charset"), opDiffInherit("collate"))
 	sort.SliceStable(ops, func(i, j int) bool { return false })
